@@ -775,6 +775,12 @@ func ruleAelJoinSplice(rule string) func(*Ctx) {
 		if ex.overflow {
 			fatalf("insertLeftEdge: path explosion")
 		}
+		// a scan whose result is carried out of the loop (`for e := ...; ae2 = e`) is only seen with its carried value
+		// unknown: explore again from each loop header
+		for _, l := range naturalLoops(f) {
+			ex2 := &explorer{c: c, f: f, canon: canonParams(f, "c", "ae"), pureMemo: true, maxPaths: 4000}
+			outs = append(outs, ex2.explore(l.header)...)
+		}
 		bad := ""
 		n := 0
 		for _, p := range outs {
@@ -1425,6 +1431,28 @@ func ruleSplitOnAdvance(rule string) func(*Ctx) {
 			for _, cd := range p.conds {
 				if cd.expr == "isJoined(ae)" {
 					tested, joined = true, cd.taken
+				}
+			}
+			// `if isJoined(e) { c.split(e, pt) }` applied by a helper the reference record does not know to every edge
+			// it is handed (a variadic splitJoined(pt, edges...)): the edge is among them
+			for _, cl := range p.calls {
+				if cl.instr == nil || tested {
+					continue
+				}
+				h := cl.instr.Common().StaticCallee()
+				if h == nil || !c.freshFunc(h) || len(callsTo(c, h, "isJoined")) == 0 || len(callsTo(c, h, "(clipperBase).split")) == 0 {
+					continue
+				}
+				for _, a := range cl.instr.Common().Args {
+					vals := []ssa.Value{a}
+					if sl, ok := a.(*ssa.Slice); ok {
+						vals = appendedValues(sl)
+					}
+					for _, v := range vals {
+						if pr, ok := v.(*ssa.Parameter); ok && ex.cn(pr.Name()) == "ae" {
+							tested, joined = true, false // the helper does the test and the split itself
+						}
+					}
 				}
 			}
 			switch {
@@ -2725,5 +2753,98 @@ func ruleUntouchedByWinding(rule string) func(*Ctx) {
 		c.check(bad == "", rule, rule+":executeInternal:parity", f.Pos(), "(RectClip64).executeInternal",
 			"the rectangle is returned for an untouched path according to the path's winding about it", bad,
 			"C06 asks for the input's winding number at every interior point: a self-overlapping path that encircles the rectangle twice has winding 2 there, and the result must too")
+	}
+}
+
+// joinHandled: on path p the edge rendered as `edge` was tested with isJoined (and split when joined), directly or
+// by a helper the reference record does not know that does so for every edge it is handed.
+func joinHandled(c *Ctx, ex *explorer, p *pathOutcome, edge string) bool {
+	for _, cd := range p.conds {
+		if cd.expr == "isJoined("+edge+")" {
+			return !cd.taken || p.called("(clipperBase).split")
+		}
+	}
+	for _, cl := range p.calls {
+		if cl.instr == nil {
+			continue
+		}
+		h := cl.instr.Common().StaticCallee()
+		if h == nil || !c.freshFunc(h) || len(callsTo(c, h, "isJoined")) == 0 || len(callsTo(c, h, "(clipperBase).split")) == 0 {
+			continue
+		}
+		for i, a := range cl.instr.Common().Args {
+			if i < len(cl.args) && cl.args[i].expr == edge {
+				return true
+			}
+			if sl, ok := a.(*ssa.Slice); ok {
+				for _, v := range appendedValues(sl) {
+					if pr, ok := v.(*ssa.Parameter); ok && ex.cn(pr.Name()) == edge {
+						return true
+					}
+					if cv, ok := v.(*ssa.Call); ok && strings.HasPrefix(edge, calleeName(c, cv)+"(") {
+						return true
+					}
+					if ph, ok := v.(*ssa.Phi); ok && ph.Comment == edge {
+						return true
+					}
+				}
+			}
+		}
+	}
+	return false
+}
+
+// ruleSplitAtMaxima: C01 — when an edge reaches its maximum, BOTH edges of the maxima pair are released from any
+// join (isJoined -> split) before the pair is closed with addLocalMaxPoly: for each of the two edges handed to
+// addLocalMaxPoly a test isJoined(edge) (or a call to a helper the reference record does not know that tests and
+// splits every edge it is handed) dominates the call.
+func ruleSplitAtMaxima(rule string) func(*Ctx) {
+	return func(c *Ctx) {
+		f := c.fn("(clipperBase).doMaxima")
+		same := func(a, b ssa.Value) bool { return a == b || sameIntValue(a, b) }
+		handled := func(edge ssa.Value, at ssa.Instruction) bool {
+			for _, ci := range calls(f) {
+				if !precedes(ci, at) {
+					continue
+				}
+				n := calleeName(c, ci)
+				if n == "isJoined" && len(ci.Common().Args) == 1 && same(ci.Common().Args[0], edge) {
+					return true
+				}
+				h := ci.Common().StaticCallee()
+				if h == nil || !c.freshFunc(h) || len(callsTo(c, h, "isJoined")) == 0 || len(callsTo(c, h, "(clipperBase).split")) == 0 {
+					continue
+				}
+				for _, a := range ci.Common().Args {
+					vals := []ssa.Value{a}
+					if sl, ok := a.(*ssa.Slice); ok {
+						vals = appendedValues(sl)
+					}
+					for _, v := range vals {
+						if same(v, edge) {
+							return true
+						}
+					}
+				}
+			}
+			return false
+		}
+		bad := ""
+		n := 0
+		for _, ci := range callsTo(c, f, "(clipperBase).addLocalMaxPoly") {
+			args := ci.Common().Args
+			if len(args) < 3 {
+				continue
+			}
+			n++
+			for k, e := range args[1:3] {
+				if !handled(e, ci) && bad == "" {
+					bad = fmt.Sprintf("at %s the maxima pair is closed without its %s edge having been released from a join (isJoined -> split) first", c.pos(ci.Pos()), map[int]string{0: "first", 1: "second"}[k])
+				}
+			}
+		}
+		c.check(bad == "" && n > 0, rule, rule+":(clipperBase).doMaxima:both-edges", f.Pos(), "(clipperBase).doMaxima",
+			fmt.Sprintf("before each of the %d addLocalMaxPoly calls both edges of the pair are tested with isJoined (and split)", n), bad,
+			"an edge that leaves the AEL while still marked as joined leaves its partner pointing at a dead edge: the next split un-joins the wrong pair and a ring is closed with the wrong side (a negatively wound lobe, a panic or a hang)")
 	}
 }
